@@ -11,8 +11,11 @@ def _desc(rep):
 def _outcome(rep):
     impl = rep.get("impl") or {}
     out = impl.get("out") if isinstance(impl, dict) else impl
-    if out and str(out[0]) == "err":
-        return str(out[1][0])
+    try:
+        if out and str(out[0]) == "err":
+            return str(out[1][0])
+    except (IndexError, TypeError, KeyError):       # a report of another shape is simply not this finding
+        pass
     return None
 
 
